@@ -166,3 +166,86 @@ Proof.
     destruct (String.eqb_spec k "referencePoint") as [->|_]; [left; reflexivity|].
     destruct (String.eqb_spec k "unitNormal") as [->|_]; [right; reflexivity|discriminate Hadd].
 Qed.
+
+(* ---- Plane.rounded succeeds for every unit normal at every precision --------------------------------------- *)
+Local Open Scope R_scope.
+Lemma Rabs_le_two x h : Rabs x <= h -> - h <= x <= h.
+Proof. unfold Rabs. destruct (Rcase_abs x); lra. Qed.
+
+(* a unit vector whose coordinates each move by at most h keeps a length within sqrt(3) h <= 2 h of 1 *)
+Lemma unit_round_norm a b c a' b' c' h : a * a + b * b + c * c = 1 -> 0 <= h ->
+  - h <= a' - a <= h -> - h <= b' - b <= h -> - h <= c' - c <= h ->
+  Rabs (sqrt (a' * a' + b' * b' + c' * c') - 1) <= 2 * h.
+Proof.
+  intros Hu Hh Ha Hb Hc.
+  set (x := a' - a) in *. set (y := b' - b) in *. set (z := c' - c) in *.
+  assert (Ea : a' = a + x) by (unfold x; ring). assert (Eb : b' = b + y) by (unfold y; ring).
+  assert (Ec : c' = c + z) by (unfold z; ring). clearbody x y z. subst a' b' c'.
+  assert (Hq : 0 <= (a + x) * (a + x) + (b + y) * (b + y) + (c + z) * (c + z)).
+  { pose proof (Rle_0_sqr (a + x)). pose proof (Rle_0_sqr (b + y)). pose proof (Rle_0_sqr (c + z)). unfold Rsqr in *. lra. }
+  set (nn := sqrt ((a + x) * (a + x) + (b + y) * (b + y) + (c + z) * (c + z))).
+  assert (HN : nn * nn = (a + x) * (a + x) + (b + y) * (b + y) + (c + z) * (c + z)) by (apply sqrt_sqrt; exact Hq).
+  assert (HN0 : 0 <= nn) by apply sqrt_pos. clearbody nn.
+  set (D := x * x + y * y + z * z).
+  assert (HD : 0 <= D) by (unfold D; nra).
+  assert (HD3 : D <= 3 * (h * h)) by (unfold D; nra).
+  set (s := sqrt D). assert (Hs : s * s = D) by (apply sqrt_sqrt; exact HD).
+  assert (Hs0 : 0 <= s) by apply sqrt_pos. clearbody s.
+  set (t := a * x + b * y + c * z).
+  assert (HCS : t * t <= D).
+  { assert (Hid : (a * a + b * b + c * c) * D - t * t =
+                  (a * y - b * x) * (a * y - b * x) + (a * z - c * x) * (a * z - c * x) + (b * z - c * y) * (b * z - c * y))
+      by (unfold t, D; ring).
+    rewrite Hu in Hid. pose proof (Rle_0_sqr (a * y - b * x)). pose proof (Rle_0_sqr (a * z - c * x)).
+    pose proof (Rle_0_sqr (b * z - c * y)). unfold Rsqr in *. lra. }
+  assert (HN2 : nn * nn = 1 + 2 * t + D) by (rewrite HN; unfold t, D; nra).
+  assert (Hts : - s <= t <= s) by (split; nra).
+  assert (Hs2h : s <= 2 * h) by nra.
+  assert (Hup : nn <= 1 + s) by nra.
+  assert (Hlo : 1 - s <= nn).
+  { destruct (Rle_dec (1 - s) 0); [lra|]. nra. }
+  apply Rabs_le. lra.
+Qed.
+
+Lemma plane_rounded_succeeds pd dd (pl : plane R) : vnorm2 ROps (pnormal pl) = 1 ->
+  plane_rounded ROps pd dd pl = Ok (MkPlane (vround ROps pd (pref pl)) (vround ROps dd (pnormal pl))).
+Proof.
+  intros Hu. unfold plane_rounded, plane_ctor.
+  replace (nleb ROps _ _) with true; [reflexivity|]. symmetry.
+  destruct pl as [rf [a b c]]. cbn [pnormal] in *. unfold vnorm2, vdot in Hu. cbn [vx vy vz] in Hu.
+  unfold vround, vnorm, vnorm2, vdot, n1; rops; cbn [vx vy vz]. rops. apply Rleb_true.
+  pose proof (pow10_pos dd) as Hp.
+  replace (1 / pow10 ROps dd) with (2 * (/ 2 * / pow10 ROps dd)) by (field; lra).
+  apply unit_round_norm with (a := a) (b := b) (c := c).
+  - exact Hu.
+  - assert (0 < / pow10 ROps dd) by (apply Rinv_0_lt_compat; exact Hp). lra.
+  - apply Rabs_le_two, round_error_half_ulp.
+  - apply Rabs_le_two, round_error_half_ulp.
+  - apply Rabs_le_two, round_error_half_ulp.
+Qed.
+(* hence serialize succeeds too, with a document that validates *)
+Lemma plane_serialize_succeeds pd dd (pl : plane R) : vnorm2 ROps (pnormal pl) = 1 ->
+  exists j, plane_serialize ROps pd dd pl = Ok j /\ plane_validate j = true.
+Proof.
+  intros Hu. unfold plane_serialize. rewrite (plane_rounded_succeeds pd dd pl Hu). cbn [rmap].
+  eexists. split; [reflexivity|]. reflexivity.
+Qed.
+
+(* ---- statement-shaped corollaries used by props/C19.v ---------------------------------------------------- *)
+Lemma roundtrip_polyline_full d (p : polyline R) :
+  pl_deserialize (pl_serialize ROps d p) = Ok (pl_rounded ROps d p) /\
+  pclosed (pl_rounded ROps d p) = pclosed p /\ pv (pl_rounded ROps d p) = map (vround ROps d) (pv p).
+Proof. split; [apply roundtrip_polyline|split; reflexivity]. Qed.
+Lemma deserialize_guarded (j : json R) :
+  (forall p, pl_deserialize j = Ok p -> pl_validate j = true) /\
+  (forall p, plane_deserialize ROps j = Ok p -> plane_validate j = true).
+Proof. split; [apply pl_deserialize_guarded|apply plane_deserialize_guarded]. Qed.
+(* rounded / serialize / deserialize of a unit-normal plane at the default direction precision: the full round trip *)
+Lemma roundtrip_plane_default pd (pl : plane R) : vnorm2 ROps (pnormal pl) = 1 ->
+  exists j, plane_serialize ROps pd default_dd pl = Ok j /\ plane_validate j = true /\
+    plane_deserialize ROps j = Ok (MkPlane (vround ROps pd (pref pl)) (vround ROps default_dd (pnormal pl))).
+Proof.
+  intros Hu. pose proof (plane_rounded_succeeds pd default_dd pl Hu) as Hr.
+  destruct (roundtrip_plane pd default_dd pl _ Hr) as [Hs [Hv [_ Hd]]].
+  eexists. split; [exact Hs|]. split; [exact Hv|]. apply Hd. reflexivity.
+Qed.
